@@ -128,6 +128,7 @@ class C13Pairs(Scenario):
         self.cfg = cfg
         self.n_gen = 0
         self.env = structs.Env(self.ctx, cfg, need_fs=cfg["kind"] == "bloom")
+        seams.SURROGATE_OK = False  # the second strategy of a pair may be a digest-based one
         self.disk = []
         from probables.hashes import default_fnv_1a
 
